@@ -7,19 +7,19 @@ CONSTANTS
   TagLen = 2
   MinInitLen = 2
   MsgSize = 2
-  Mode = "raw1"
+  Mode = "raw2"
   RotAt = 1000
   StartN = 996
   PauseAt = 2
-  MaxMsgs1 = 1
-  MaxMsgs2 = 0
+  MaxMsgs1 = 0
+  MaxMsgs2 = 3
   MaxOps = 30
   MaxTampers = 1
   MaxBudgetOps = 0
   MaxDisc = 0
   CutReads = TRUE
-  CutHandshake = FALSE
-  EmitEvery = 2
+  CutHandshake = TRUE
+  EmitEvery = 4
 CONSTRAINT Bound
 VIEW View
 INVARIANT ExactDelivery
